@@ -44,6 +44,8 @@ func init() {
 				Old: "\t\t\tif quota.Burst < 1 {", New: "\t\t\tif quota.Burst < 0 {", Expect: "interval:Burst"},
 			{Name: "quota-checked-when-disabled", File: pkgJCfg + "/config.go",
 				Old: "\t\tif quota.Enabled {\n\t\t\tif quota.OPS <= 0 {", New: "\t\t{\n\t\t\tif quota.OPS <= 0 {", Expect: "interval:OPS"},
+			{Name: "quota-loop-stops-at-first-disabled", File: pkgJCfg + "/config.go",
+				Old: "\t\tif quota.Enabled {\n\t\t\tif quota.OPS <= 0 {", New: "\t\tif !quota.Enabled {\n\t\t\tbreak\n\t\t}\n\t\t{\n\t\t\tif quota.OPS <= 0 {", Expect: "all-items-validated"},
 			{Name: "try-reference-unchecked", File: pkgJCfg + "/config.go",
 				Old: "\t\tif _, ok := c.Servers[name]; !ok {\n\t\t\te(\"Fallback/try server", New: "\t\tif _, ok := c.Servers[name]; !ok && name == \"\" {\n\t\t\te(\"Fallback/try server", Expect: "reference:try"},
 			{Name: "bungeeguard-mode-unknown", File: pkgJCfg + "/config.go",
@@ -269,6 +271,10 @@ func runC37(c *Ctx) {
 			fmt.Sprintf("the accepted range of %s must be exactly %s (error edges imply outside=%v; accepted range derived from the code: %s; only-when-enabled=%v)",
 				iv.key, fmtInterval(iv.lo, iv.hi, iv.loStrict), sound, fmtInterval(lo, hi, loStrict), enabledOK))
 	}
+
+	// every item of every validated collection is examined
+	checkNoEarlyLoopExit(c, "all-items-validated", val)
+	checkNoEarlyLoopExit(c, "all-items-validated", c.P.Func(pkgLCfg+":(Config).Validate"))
 
 	// ---- (2) references
 	for _, ref := range []struct{ key, msg string }{{"try", "Fallback/try server"}, {"forced-host", "Forced host"}} {
